@@ -1105,10 +1105,10 @@ int FSolver::WriteStatic2D(CBigLinProb &L)
 
     for(i = 0; i<NumEls; i++)
     {
-        // the edge markers too (as WriteHarmonic2D does): a later problem that takes this file as
-        // its previous solution reads its mesh, boundary markers included, from here
-        fprintf(fp,"%i\t%i\t%i\t%i\t%i\t%i\t%i\n",meshele[i].p[0],meshele[i].p[1],meshele[i].p[2],meshele[i].lbl,
-                meshele[i].e[0],meshele[i].e[1],meshele[i].e[2]);
+        // the edge markers and the source current density too: a later problem that takes this file as
+        // its previous solution reads its mesh, boundary markers and Jprev included, from here
+        fprintf(fp,"%i\t%i\t%i\t%i\t%i\t%i\t%i\t%.17g\n",meshele[i].p[0],meshele[i].p[1],meshele[i].p[2],meshele[i].lbl,
+                meshele[i].e[0],meshele[i].e[1],meshele[i].e[2],meshele[i].Jprev);
     }
 
     /*
